@@ -184,7 +184,12 @@ def run(ctx):
     for p in paths_of(repo, f_gc):
         if p.outcome[0] == 'return' and norm(p.outcome[1]) != 'None':
             one = [v for a, v in p.decisions if a.text in ('1 == len(found)',)]
-            ctx.check(bool(one) and one[0] and norm(p.outcome[1]) == 'found[0]', 'C10.5', 'dispatch:unique-prefix', f_gc.loc(),
+            from ..sim import deep_ast
+            rv_ = deep_ast(p.outcome[1])
+            # the list of matching commands is known element by element on the path: exactly one collected, and that one returned
+            coll = [e for e in p.events if e.kind == 'call' and e.ftext and (e.ftext.endswith('.append') and 'listcomp' not in e.ftext or e.ftext == '<listcomp>.append') and e.args]
+            folded = len(coll) == 1 and isinstance(rv_, ast.Subscript) and isinstance(rv_.value, (ast.List, ast.Tuple)) and len(rv_.value.elts) == 1 and norm(rv_.slice) in ('0', '-1')
+            ctx.check((bool(one) and one[0] and norm(p.outcome[1]) == 'found[0]') or folded or (len(coll) == 1 and norm(p.outcome[1]) == norm(coll[0].args[0])), 'C10.5', 'dispatch:unique-prefix', f_gc.loc(),
                       'a command is returned only when exactly one name matches the typed prefix', 'returns %s with %s' % (norm(p.outcome[1]), p.describe()[:100]))
 
     # ---- C10.6 writers -------------------------------------------------------------------------------------------------
